@@ -123,8 +123,15 @@ CLAIMED.update({
    technique=GH2),
 })
 
+CLAIMED.update({
+ "C18": dict(category="proof",
+   text="Handler-quantity helpers of v2/priority/utils and v1 priority, relative to what the (arbitrary, possibly impure) divider answered during the call: a call hook on every call through a Divider value records the priorities slice, the dividend and whether every listed priority got >= 1 unit (ghost history gDivPri/gDivQ/gDivFilled). Proved: isNonFatalConfig returns true exactly when it divided `quantity` among every combination, in order, and each division was filled (false: the last division made was of `quantity` among the next combination and was not filled); isSuitableConfig true implies the same filledness facts (suitable => non-fatal, per call); IsNonFatalConfig/IsSuitableConfig return exactly that predicate evaluated on genCombinations(createSortedCopy(priorities)); each PickUpMin/Max function evaluates the predicate on 1,2,... (resp. max,max-1,...) and returns the first quantity for which it held - hence the smallest/largest in [1,max] - or 0 after all max evaluations were false (ghost history gNFq/gNFr, gSUq/gSUr of predicate evaluations). NOT decided: that genCombinations enumerates exactly the non-empty subsets (trusted, no contract), monotonicity in the percentage limit (floating point), and 'non-fatal => accepted by New' across the two packages (it needs a deterministic divider; the shared filledness test IsDistributionFilledFor is the same function in both, and its defect was found and repaired through C15).",
+   design_ref="DESIGN.md §7 C18, §12.6",
+   note=TB + "partial: genCombinations, createSortedCopy and isDistributionSuitable are trusted without contract; results are relative to the divider's answers during the call (no determinism assumption).",
+   technique=GH2),
+})
+
 NA = {
- "C18": "the subset enumeration of genCombinations and the determinism of the divider across calls are outside what the contracts express; the filledness defect shared with C15 was found and repaired through C15 (DESIGN.md 12.6)",
  "C19": "termination of goroutines over all schedules is a liveness property; the VC generator proves partial correctness of sequential code only (DESIGN.md §9)",
 }
 NOT_YET = "not claimed yet: contracts for this property are not built/discharged at this commit (see DESIGN.md §7 for the plan)"
